@@ -92,6 +92,17 @@ def _gen(rng, big=False):
                 fired['resample_inserted'] = fired.get('resample_inserted', 0) + 1
         sig2[v] = out
     text = common.dense_text(ast, sg.Spelling(rng))
+    subspecs = None
+    if sg.size(ast) >= 4 and rng.random() < 0.2:
+        # the same requirement written with named sub-specifications (several assertions in one text, or add_sub_spec)
+        defs, top = sg.modularize(rng, ast, max_subs=3, prefer_stateful=rng.random() < 0.5)
+        sp = sg.Spelling(rng)
+        subs = ['%s = %s;' % (nm, sg.to_text(a, sp, common.dense_bounds)) for nm, a in defs]
+        text = 'out = ' + sg.to_text(top, sp, common.dense_bounds) + ';'
+        if rng.random() < 0.5:
+            text = '\n'.join(subs + [text])
+        else:
+            subspecs = subs
     again = None
     if rng.random() < 0.3:
         # a second requirement monitored in the same process by another object, between two uses of the first
@@ -99,14 +110,18 @@ def _gen(rng, big=False):
     order = list(vars_)
     rng.shuffle(order)
     return {'vars': vars_, 'ast': ast, 'text': text, 'signals': signals, 'signals2': sig2, 'fired': fired,
-            'cls': 'ct_off' if rng.random() < 0.7 else 'ct', 'order': order, 'again': again,
+            'cls': 'ct_off' if rng.random() < 0.7 else 'ct', 'order': order, 'again': again, 'subspecs': subspecs,
             'fine_consts': rng.random() < 0.08 and any(x[0] in sg.TUN + sg.TBIN for x in sg.walk(ast)),
             'poisoned_first': rng.choice(sg.vars_of(ast)) if rng.random() < 0.12 else None}
 
 
 def _check(r, sc, text, signals, ref, s0, e0, tag, keep=None):
     desc = {'cls': sc.get('cls', 'ct_off'), 'vars': common.var_decls(sc['vars']), 'spec': text}
-    if sc.get('fine_consts') and tag != 'second-requirement':
+    modular = tag != 'second-requirement' and sc.get('text') and text == sc.get('text') and (sc.get('subspecs') or '\n' in text)
+    if modular:
+        desc['subspecs'] = sc.get('subspecs') or []
+        r.probes['modular_specification'] += 1
+    if sc.get('fine_consts') and tag != 'second-requirement' and not modular:
         # the time axis is in microseconds, the bounds are declared constants given in seconds (0.00000025 s = one tick)
         desc['spec'], desc['consts'] = common.fine_const_bounds(sc['ast'])
         desc['unit'] = 'us'
